@@ -249,6 +249,16 @@ func genRegionsPrune(w *world, t *trace.W, r *rng.R, maxOps int, bg *int) {
 		case 1:
 			w.do(t, fmt.Sprintf("delregion %d", r.Range(1, 14)))
 		case 2:
+			if rs && r.Bool(1, 4) {
+				// the leveldb write of this flush (or of the save that fills the batch) fails; nothing may be lost
+				if r.Bool(1, 2) {
+					w.do(t, "failflush")
+				} else {
+					s, e := grid()
+					w.do(t, fmt.Sprintf("failregion %d:%d:%d:%d:%d", r.Range(1, 14), s, e, r.Range(1, 3), r.Range(1, 5)))
+				}
+				continue
+			}
 			if rs && *bg > 0 && r.Bool(1, 6) {
 				*bg--
 				w.do(t, "bgflush") // the time-based flush instead of an explicit one
@@ -394,8 +404,52 @@ func genRace(w *world, t *trace.W, r *rng.R, maxOps int) {
 	w.do(t, "loadregions plain")
 }
 
+// genFault: leveldb writes of the region storage fail for a while (disk full, I/O error): explicit flushes and
+// the flush of the save that fills the batch return an error; later, when writes work again, flush / close /
+// reopen / full load must still show every region whose save was acknowledged.
+func genFault(w *world, t *trace.W, r *rng.R, maxOps int) {
+	w.do(t, "reset")
+	w.do(t, "open rs")
+	id := uint64(r.Range(1, 20))
+	save := func(op string) {
+		w.do(t, fmt.Sprintf("%s %d:%d:%d:1:%d", op, id, id*10, id*10+10, r.Range(1, 3)))
+		id += uint64(r.Range(1, 3))
+	}
+	if r.Bool(1, 2) {
+		// right below the batch boundary
+		n := []int{97, 98, 99}[r.Intn(3)]
+		w.do(t, fmt.Sprintf("regions %d %d 1 3", n, 5000))
+		for k := 99 - n + r.Intn(3); k > 0; k-- {
+			save("failregion")
+		}
+	}
+	for k := r.Range(2, maxOps/3+2); k > 0; k-- {
+		switch r.Pick(35, 15, 20, 10, 8, 12) {
+		case 0:
+			save("region")
+		case 1:
+			save("failregion")
+		case 2:
+			w.do(t, "failflush")
+		case 3:
+			w.do(t, "flush")
+		case 4:
+			w.do(t, fmt.Sprintf("delregion %d", uint64(r.Range(1, int(id)))))
+		case 5:
+			w.do(t, "flush")
+			w.do(t, "loadregions plain")
+		}
+	}
+	save("region")
+	w.do(t, "flush")
+	w.do(t, "close")
+	w.do(t, "loadregions plain")
+}
+
 func gen(w *world, t *trace.W, r *rng.R, maxOps int, big, bg *int) {
-	switch r.Pick(28, 22, 32, 12, 6) {
+	switch r.Pick(27, 21, 30, 11, 6, 5) {
+	case 5:
+		genFault(w, t, r, maxOps)
 	case 0:
 		genStores(w, t, r, maxOps, big)
 	case 1:
